@@ -4,10 +4,15 @@ package main
 import (
 	"flag"
 	"fmt"
+	"os"
 	"runtime"
 	"strings"
 
 	"verif/mon"
+
+	"github.com/btcsuite/btcd/peer"
+	"github.com/btcsuite/btcd/v2transport"
+	"github.com/btcsuite/btclog"
 )
 
 // enumSize returns sum_{l=0..L} a^l.
@@ -65,12 +70,22 @@ func want(name string) bool {
 
 func main() {
 	mon.Main("C18", func(c *mon.Ctx) {
+		if debugTiming {
+			// diagnostics only: show the peer package's own log
+			lg := btclog.NewBackend(os.Stdout).Logger("PEER")
+			lg.SetLevel(btclog.LevelDebug)
+			peer.UseLogger(lg)
+			lg2 := btclog.NewBackend(os.Stdout).Logger("V2TR")
+			lg2.SetLevel(btclog.LevelDebug)
+			v2transport.UseLogger(lg2)
+		}
 		ps := &procState{excl: map[uint64]bool{}, orders: map[uint64]struct{}{}}
 		c.Rule("hs.*: one case = one fresh peer (inbound or outbound) driven by a scripted remote over a buffered in-memory conn; " +
 			"scripts over the 17-symbol Appendix-C alphabet, enumerated exhaustively by length (hs.enum), version-pair product (hs.pver), " +
 			"sampled longer scripts (hs.rand); distinct = (direction, symbol sequence with advertised versions, network, local version, " +
-			"self-conn/reject/lossy flags). fifo.* / early.*: one case = one peer lifetime with 2-16 concurrent senders of uniquely numbered " +
-			"pings, inventory senders, remote traffic and one disconnect cause at a PRNG-chosen logical point; distinct = fingerprint of " +
+			"self-conn/reject/lossy flags). fifo.pN / early.pN / v2.pN (N = GOMAXPROCS): one case = one peer lifetime with 2-16 concurrent senders of uniquely numbered " +
+			"pings, inventory senders, a flag observer, remote traffic and one disconnect cause (Disconnect x1/x3, remote close / EOF, write / read fault, drain) at a PRNG-chosen " +
+			"logical point; early.* starts the senders before / during the handshake, v2.* runs over the BIP324 transport or its implicit v1 downgrade; distinct = fingerprint of " +
 			"(cause, sender-id order on the wire, per-sender delivered counts, done-signal outcome classes). Non-trivial = at least one symbol / one message on the wire.")
 		c.Note(fmt.Sprintf("GOMAXPROCS=%d race=%v", runtime.GOMAXPROCS(0), mon.RaceEnabled))
 		if *scaleFlag != 100 {
